@@ -377,6 +377,8 @@ DEFAULT_PROFILE = dict(
     p_alias_of_container_of_alias=0.0,
     p_multi_ns_doc=0.0,
     p_sibling_same_tag=0.0,
+    p_alias_twin_annotations=0.0,
+    p_container_of_root=0.0,
     route_alias_user_only=False,
 )
 
@@ -917,6 +919,19 @@ class Gen:
 
     def gen_field(self, ns, owner):
         t = self.type_expr(ns)
+        if self.p.get('p_container_of_root') and self.rnd.random() < self.p['p_container_of_root']:
+            # a (nullable) list or map of the root of an enumerated-subtypes tree
+            roots = self.user_types(ns, ('struct',), lambda d: bool(d.subtypes))
+            if roots:
+                d0 = self.rnd.choice(roots)
+                inner = ref(d0.ns, d0.name)
+                if self.rnd.random() < 0.5:
+                    t = T('map', args={'key': prim('String'), 'value': inner})
+                else:
+                    t = T('list', args={'item': inner, 'min_items': None, 'max_items': None})
+                if self.rnd.random() < 0.5:
+                    t = t.copy(nullable=True)
+                self.m.feature('field_container_of_subtype_root')
         fname = self.fresh_member_name((owner.ns, owner.name), self.field_pool)
         default = None
         if self.p['p_default_via_foreign_alias'] and self.rnd.random() < self.p['p_default_via_foreign_alias']:
@@ -1093,6 +1108,20 @@ class Gen:
                         anns.append(('redactor', (a.ns, a.name)))
                 elif k == 'custom' and r.random() < 0.4:
                     anns.append(('custom', (a.ns, a.name)))
+        if self.p.get('p_alias_twin_annotations') and r.random() < self.p['p_alias_twin_annotations']:
+            # two custom annotations of the same annotation type on one alias (their relative order must not
+            # come from a set)
+            by_type = {}
+            for a in self.visible_anns(ns):
+                if not isinstance(a.atype, str):
+                    by_type.setdefault(tuple(a.atype), []).append(a)
+            twins = [v for v in by_type.values() if len(v) >= 2]
+            if twins:
+                have = {x for _, x in anns}
+                for a in r.choice(twins)[:3]:
+                    if (a.ns, a.name) not in have:
+                        anns.append(('custom', (a.ns, a.name)))
+                self.m.feature('alias_with_two_annotations_of_one_type')
         aname = self.type_name()
         if self.p['p_odd_alias_name'] and r.random() < self.p['p_odd_alias_name']:
             # names that are not in canonical Pascal case: acronyms, snake case
